@@ -693,7 +693,7 @@ def do_replay(path):
     env = dict(os.environ)
     env.update(SAN_ENV)
     env.update(run.get('env') or {})
-    env['VERIF_VERBOSE'] = '1'
+    env.setdefault('VERIF_VERBOSE', '1')
     fz = re.match(r'^[^:]+:\d+:\d+:([0-9a-f-]+)$', case)
     if fz:
         cmd = [exe, run['mode'], str(rp['seed']), '0', '1', '1', 'input=' + fz.group(1)] + list(run.get('args', ()))
